@@ -214,6 +214,17 @@ class Analyzer(object):
             self.expr_effects(s.iter, st, fi)
             a = dict((k, set(v)) for k, v in st.items())
             it = {l for l in self.loc(s.iter, st, fi)}
+            if isinstance(s.iter, (ast.Tuple, ast.List, ast.Set)):
+                # 'for x in (p, q, r)': x is each of the elements in turn, not a new object
+                it = set()
+                for el in s.iter.elts:
+                    it |= self.loc(el, st, fi)
+            elif (isinstance(s.iter, ast.Call) and isinstance(s.iter.func, ast.Name) and s.iter.func.id in ("zip", "reversed", "iter")
+                  and all(isinstance(x, (ast.Tuple, ast.List)) for x in s.iter.args)):
+                it = set()
+                for x in s.iter.args:
+                    for el in x.elts:
+                        it |= self.loc(el, st, fi)
             for _ in range(2):
                 self.assign_target(s.target, it, a, fi, s)
                 self.walk(s.body, a, fi)
